@@ -4,6 +4,7 @@ package props
 
 import (
 	"fmt"
+	"unicode"
 
 	"pgregory.net/rapid"
 )
@@ -110,10 +111,43 @@ func genC05Leaf(t *rapid.T) Val {
 // ---- mutation ------------------------------------------------------------------------
 
 // mutatePrim returns a value of the same kind that is certainly different.
+// nearString returns a string that differs from s only slightly (case of one letter, an added
+// blank, an added character), chosen by variant: comparisons must not be case- or blank-insensitive.
+func nearString(s string, variant int) string {
+	switch variant % 4 {
+	case 0:
+		r := []rune(s)
+		for i, c := range r {
+			if unicode.IsLower(c) && unicode.ToLower(unicode.ToUpper(c)) == c && unicode.ToUpper(c) != c {
+				r[i] = unicode.ToUpper(c)
+				return string(r)
+			}
+			if unicode.IsUpper(c) && unicode.ToLower(c) != c {
+				r[i] = unicode.ToLower(c)
+				return string(r)
+			}
+		}
+	case 1:
+		return s + " "
+	case 2:
+		return " " + s
+	}
+	return s + "~"
+}
+
+var mutVariant int // advanced by every string mutation so that all variants occur
+
 func mutatePrim(v Val) Val {
 	w := v
 	switch v.K {
 	case "str", "stringer":
+		mutVariant++
+		w.S = nearString(v.S, mutVariant)
+		if w.S == v.S {
+			w.S = v.S + "~"
+		}
+		return w
+	case "str-plain":
 		w.S = v.S + "~"
 	case "bool":
 		w.B = !v.B
@@ -342,6 +376,13 @@ func nodeSites(n *Node, where string, depth int, isRoot bool) []c05Site {
 	case "cond":
 		out = append(out, c05Site{func() { n.KW += "x" }, where + " keyword", "cond/keyword"})
 		out = append(out, c05Site{func() {
+			k := nearString(n.KW, 0)
+			if k == n.KW {
+				k = n.KW + " "
+			}
+			n.KW = k
+		}, where + " keyword (letter case / blank only)", "cond/keyword-case"})
+		out = append(out, c05Site{func() {
 			if n.Op.K == "cmp" {
 				n.Op.I = n.Op.I%6 + 1
 			} else {
@@ -509,7 +550,7 @@ func init() {
 		Gen: genC05,
 		Run: runC05,
 		Floors: map[string]float64{"equal-only": 0.1, "mut:slice/elem/middle": 0.01, "mut:slice/elem/last": 0.01, "mut:map/value/last": 0.005, "mut:map/key-changed": 0.01,
-			"private-field-struct-present": 0.02, "mut:stack/swap": 0.003, "mut:cond/operator": 0.01, "mut:stack/kind": 0.01, "mut:ptr/depth3/nested": 0.002, "mut:struct/priv/fieldB": 0.001, "comparable-struct-with-pointer-present": 0.01},
+			"private-field-struct-present": 0.02, "mut:stack/swap": 0.003, "mut:cond/operator": 0.01, "mut:cond/keyword-case": 0.005, "mut:stack/kind": 0.01, "mut:ptr/depth3/nested": 0.002, "mut:struct/priv/fieldB": 0.001, "comparable-struct-with-pointer-present": 0.01},
 		Assumptions: []string{"NaN, typed-nil pointers, containers nested in containers, functions and channels are not generated (outside the statement)",
 			"unexported struct fields are never mutated (documented as ignored); slices are built with cap==len (capacity is part of the documented slice comparison)"},
 	})
